@@ -1202,6 +1202,20 @@ impl<'a> Machine<'a> {
             Stmt::End => Err(Stop::End),
             Stmt::ExitProc => Err(Stop::ExitProc),
             Stmt::Raw(_) => undet("raw statement"),
+            Stmt::Opaque { var, bad, code, .. } => {
+                if let Some(l) = var {
+                    let v = self.load(l, path)?;
+                    let n = v.num().clone();
+                    if !n.is_whole() {
+                        return undet("opaque statement on a fractional value");
+                    }
+                    if bad.iter().any(|b| n.m == *b as i128) {
+                        self.feat("opaque-statement-failed");
+                        return self.err(*code as i32, path);
+                    }
+                }
+                Ok(())
+            }
         }
     }
 
